@@ -13,7 +13,7 @@ use crate::{
     },
     hasher::HashChain,
     lms::parameters::LmsParameter,
-    util::helper::read_and_advance,
+    util::helper::try_read_and_advance,
 };
 
 type AuxLevel = u32;
@@ -75,18 +75,18 @@ pub fn hss_expand_aux_data<'a, H: HashChain>(
 
     let mut expanded_aux_data: MutableExpandedAuxData = Default::default();
 
-    let mut aux_data = aux_data.unwrap();
+    let mut aux_data = aux_data?;
 
-    if aux_data[AUX_DATA_MARKER] == NO_AUX_DATA {
+    if !hss_is_aux_data_used(aux_data) {
         return None;
     }
 
     // REMARK: Reference implementation treats that as u64 and ANDs it with 0x7ffffffffL after its stored in expanded_aux_data
     // However in our opinion that should make no difference, because we only read 4 bytes.
     expanded_aux_data.level = u32::from_be_bytes(
-        read_and_advance(aux_data, 4, &mut index)
+        try_read_and_advance(aux_data, 4, &mut index)?
             .try_into()
-            .unwrap(),
+            .ok()?,
     );
 
     const LEN_LAYER_SIZES: usize = 1 + MAX_TREE_HEIGHT;
@@ -99,9 +99,14 @@ pub fn hss_expand_aux_data<'a, H: HashChain>(
         layer_sizes[index] = (H::OUTPUT_SIZE as usize) << index;
     }
 
+    // A buffer that is too short for the levels it announces plus the MAC is not usable
+    let len_aux_data = index + layer_sizes.iter().sum::<usize>();
+    if aux_data.len() < len_aux_data + H::OUTPUT_SIZE as usize {
+        return None;
+    }
+
     // Check if data is valid
     if let Some(seed) = seed {
-        let len_aux_data = index + layer_sizes.iter().sum::<usize>();
         let (aux_data, aux_data_mac) = aux_data.split_at(len_aux_data);
 
         let key = compute_seed_derive::<H>(seed);
@@ -150,7 +155,9 @@ pub fn hss_store_aux_marker(aux_data: &mut [u8], aux_level: AuxLevel) {
 }
 
 pub fn hss_is_aux_data_used(aux_data: &[u8]) -> bool {
-    aux_data[AUX_DATA_MARKER] != NO_AUX_DATA
+    aux_data
+        .get(AUX_DATA_MARKER)
+        .map_or(false, |marker| *marker != NO_AUX_DATA)
 }
 
 pub fn hss_save_aux_data<H: HashChain>(
